@@ -2,11 +2,14 @@
 from __future__ import annotations
 
 import ast
+import builtins
 from typing import Any
 
-from ..astutil import Locals, call_name, cfg_of, constructs_error, error_names, norm, returns_error, short, stmt_calls, where
-from ..cfg import CFG, ENTRY, EXIT
+from ..astutil import (ERROR_CLASSES, ERROR_ONLY_HELPERS, Locals, call_name, cfg_of, constructs_error, enclosing_loop_body,
+                       error_names, names_in, norm, region, resolved_text, returns_error, role_anon, short, stmt_calls, stmt_of, where)
+from ..cfg import CFG, EXIT, walk_own
 from ..core import Report
+from ..pyindex import FuncInfo
 
 LEVEL = ("containment mechanisms only (byte equality of two trees is a relation between runs and is not decided): dependency "
          "recording on every successful path and roots forwarded to every recursive build; removal closed over recorded "
@@ -32,6 +35,14 @@ def run(rep: Report, ctx: Any) -> str:
                       "hands back the caller's state, never a stale snapshot")
     rep.rule("R08.4", "loop containment: inside the per-item loops no `return` / `break` ends the traversal because of one item")
     rep.rule("R08.5", "Schemas.add_dependencies stores a fresh set and only copies the caller's roots into it")
+    rep.rule("R08.6", "only exclusively owned classes are recorded for removal: an add_dependencies call either forwards the `roots` it was "
+                      "given, or records a class name for which the recording function rejects an already registered class of that name "
+                      "(removal pops the name from classes_by_name: a class shared by name would be taken from its other users)")
+    rep.rule("R08.7", "document validation is one all-or-nothing step, so no validator of a piece-level document model raises: a piece the "
+                      "parser contains must not be turned into a failure of the whole document before the parser sees it")
+    rep.rule("R08.8", "the product of a fallible, state-threading build step made for an item is never dropped: from the step, every way "
+                      "to the end of the iteration hands the product (or its error) on - a piece that does not contribute is skipped "
+                      "before it is built, so it can neither fail its container nor leave classes behind")
 
     # ---- R08.1 -----------------------------------------------------------------------------------------------------
     pfr = ix.func("properties._property_from_ref")
@@ -55,15 +66,7 @@ def run(rep: Report, ctx: Any) -> str:
                           "the dependency is recorded for something else than (ref_path, roots)", where(pfr, c), lhs=kws,
                           rhs="ref_path=<parse_reference_path(data.ref)>, roots=roots")
     pp = ix.func("model_property._process_properties")
-    from .c15 import allof_branch
-
-    loop_, branch_ = allof_branch(rep, pp)
-    member = norm(loop_.target)
-    refs2 = set(Locals(pp.node).bound_from(lambda v: v == f"parse_reference_path({member}.ref)", "assign"))
-    rec = [c for s_ in branch_.body for c in ast.walk(s_) if isinstance(c, ast.Call) and call_name(c).endswith("schemas.add_dependencies")
-           and {k.arg: norm(k.value) for k in c.keywords}.get("roots") == "roots" and {k.arg: norm(k.value) for k in c.keywords}.get("ref_path") in refs2]
-    rep.check(bool(rec), "R08.1", "_process_properties::allOf-reference-recorded",
-              "an allOf parent is not recorded as a dependency of the child", where(pp, pp.node))
+    _allof_reference_recorded(rep, ix, pp, cfgs)
     n_calls = 0
     for f in ix.all_functions:
         params = {p.arg for p in f.params}
@@ -193,6 +196,9 @@ def run(rep: Report, ctx: Any) -> str:
     rep.floor("containment_loops", n_l, 12)
 
     check_no_alias(rep, ctx, "R08.5")
+    _exclusive_dependants(rep, ix, cfgs)
+    _piece_validators_do_not_raise(rep, ix)
+    _products_not_dropped(rep, ix, cfgs)
     rep.not_decided += ["byte equality of the output trees with and without the bad piece"]
     return LEVEL
 
@@ -243,3 +249,313 @@ def _parent_call(fn: ast.AST, node: ast.AST) -> ast.Call | None:
         if isinstance(c, ast.Call) and any(x is node for x in ast.walk(c)) and c is not node:
             best = c
     return best
+
+
+# ---- R08.1: allOf parents ------------------------------------------------------------------------------------------------------
+
+def _param_index(g: FuncInfo, c: ast.Call, names: set[str]) -> list[str]:
+    """parameters of g that receive one of the caller's `names` in call c"""
+    a = g.node.args
+    pos = [x.arg for x in [*a.posonlyargs, *a.args]]
+    if g.cls is not None and g.kind in ("method", "classmethod") and pos:
+        pos = pos[1:]
+    out = []
+    for i, v in enumerate(c.args):
+        if isinstance(v, ast.Name) and v.id in names and i < len(pos):
+            out.append(pos[i])
+    for k in c.keywords:
+        if k.arg and isinstance(k.value, ast.Name) and k.value.id in names:
+            out.append(k.arg)
+    return out
+
+
+def _parses_ref_of(fn: ast.AST, names: set[str]) -> list[ast.Call]:
+    """calls parse_reference_path(<x>.ref) in fn where x is one of `names` (directly or through locals bound from it)"""
+    out = []
+    for c in ast.walk(fn):
+        if isinstance(c, ast.Call) and call_name(c).rsplit(".", 1)[-1] == "parse_reference_path" and c.args:
+            txt = resolved_text(c.args[0], fn)
+            if any(f"{n}.ref" in txt for n in names):
+                out.append(c)
+    return out
+
+
+def _allof_reference_recorded(rep: Report, ix: Any, pp: FuncInfo, cfgs: dict[str, CFG]) -> None:
+    """In the loop over data.allOf: from the statement that reads a member's reference (parse_reference_path(<member>.ref), inline or in a
+    private helper that receives the member), every way to the end of the iteration passes schemas.add_dependencies(ref_path=<what that
+    statement produced>, roots=roots).  Error returns leave the function and are not ends of an iteration."""
+    cfg = cfg_of(pp, cfgs)
+    loops = [n for n in ast.walk(pp.node) if isinstance(n, ast.For) and "data.allOf" in resolved_text(n.iter, pp.node)]
+    rep.require(loops, "loop over data.allOf in _process_properties")
+    helpers = {g.name: g for g in region(ix, pp) if g is not pp}
+    lc = Locals(pp.node)
+    has_roots = "roots" in {p.arg for p in pp.params}
+    ok_all = True
+    n_reads = 0
+    for lp in loops:
+        members = names_in(lp.target)
+        reads: list[ast.stmt] = []
+        for st in cfg.stmts():
+            if not any(x is st for x in ast.walk(lp)) or st is lp:
+                continue
+            own = [n for n in walk_own(st)]
+            direct = any(c in own for c in _parses_ref_of(pp.node, members))
+            via = False
+            for c in own:
+                if isinstance(c, ast.Call) and call_name(c).rsplit(".", 1)[-1] in helpers:
+                    g = helpers[call_name(c).rsplit(".", 1)[-1]]
+                    recv = set(_param_index(g, c, members))
+                    via = via or bool(recv and _parses_ref_of(g.node, recv))
+            if direct or via:
+                reads.append(st)
+        n_reads += len(reads)
+        for rd in reads:
+            produced = {t.id for t in ast.walk(rd) if isinstance(t, ast.Name) and isinstance(t.ctx, ast.Store)}
+            # locals derived from what the reading statement produced (tuple unpacking of a helper's result, ...)
+            for _ in range(3):
+                for name, ds in lc.defs.items():
+                    if name not in produced and any(v is not None and names_in(v) & produced for _, _, v in ds):
+                        produced = produced | {name}
+
+            def records(n: object) -> bool:
+                if not isinstance(n, ast.stmt):
+                    return False
+                for c in stmt_calls(n, "add_dependencies"):
+                    kws = {k.arg: k.value for k in c.keywords}
+                    rp = kws.get("ref_path", c.args[0] if c.args else None)
+                    rt = kws.get("roots", c.args[1] if len(c.args) > 1 else None)
+                    if has_roots and isinstance(rt, ast.Name) and rt.id == "roots" and isinstance(rp, ast.Name) and rp.id in produced:
+                        return True
+                return False
+
+            seen = cfg.reachable_from(rd, avoid=records)
+            ends = [n for n in seen if n is lp or (isinstance(n, ast.Break) and enclosing_loop_body(pp.node, n) is lp)]
+            ok_all = ok_all and not ends
+    rep.check(ok_all and n_reads > 0, "R08.1", "_process_properties::allOf-reference-recorded",
+              "an allOf parent is not recorded as a dependency of the child on every way through the iteration that resolved it",
+              where(pp, loops[0]), lhs=f"reference reads={n_reads}", rhs="every iteration end passes add_dependencies(ref_path=<parsed member.ref>, roots=roots)")
+
+
+# ---- R08.6: what may be recorded for removal ---------------------------------------------------------------------------------------
+
+def _else_successors(cfg: CFG, n: ast.If) -> set[object]:
+    return {s for s in cfg.succ.get(n, ()) if s is not n.body[0] and not isinstance(s, ast.ExceptHandler)}
+
+
+def _rejects_registered_name(f: FuncInfo, cfg: CFG, elt: ast.expr) -> ast.If | None:
+    """the test of f on `<elt> in <...>.classes_by_name` after which, where the name is already registered, every continuation is an
+    error return (None: f does not reject a registered name)"""
+    errs = error_names(f.node)
+    want = norm(elt)
+    for n in cfg.stmts():
+        if not isinstance(n, ast.If):
+            continue
+        t = n.test
+        neg = False
+        while isinstance(t, ast.UnaryOp) and isinstance(t.op, ast.Not):
+            t, neg = t.operand, not neg
+        if not (isinstance(t, ast.Compare) and len(t.ops) == 1 and isinstance(t.ops[0], (ast.In, ast.NotIn)) and norm(t.left) == want
+                and isinstance(t.comparators[0], ast.Attribute) and t.comparators[0].attr == "classes_by_name"):
+            continue
+        if isinstance(t.ops[0], ast.NotIn):
+            neg = not neg
+        starts = _else_successors(cfg, n) if neg else {n.body[0]}
+        is_err = lambda x: isinstance(x, ast.Return) and returns_error(x, errs)  # noqa: E731
+        if starts and all(is_err(s0) or EXIT not in cfg.reachable_from(s0, avoid=is_err) for s0 in starts):
+            return n
+    return None
+
+
+def _exclusive_dependants(rep: Report, ix: Any, cfgs: dict[str, CFG]) -> None:
+    n_sites = 0
+    for f in ix.all_functions:
+        if not f.module.name.startswith("openapi_python_client.parser") or f.name == "add_dependencies":
+            continue
+        params = {p.arg for p in f.params}
+        lc = Locals(f.node)
+        for c in ast.walk(f.node):
+            if not (isinstance(c, ast.Call) and call_name(c).rsplit(".", 1)[-1] == "add_dependencies"):
+                continue
+            n_sites += 1
+            kws = {k.arg: k.value for k in c.keywords}
+            rt = kws.get("roots", c.args[1] if len(c.args) > 1 else None)
+            key = f"{short(f)}::add_dependencies[{role_anon(rt, f.node) if rt is not None else ''}]"
+            def forwarded(e: ast.AST | None) -> bool:  # the `roots` parameter itself (possibly defaulted: roots = roots or set())
+                return isinstance(e, ast.Name) and e.id == "roots" and "roots" in params and \
+                    all("roots" in names_in(v) for v in lc.values_of("roots"))
+
+            if forwarded(rt):
+                rep.ok("R08.6", key, "forwards the roots it received", "forwarded roots / exclusively owned class name")
+                continue
+            cfg = cfg_of(f, cfgs)
+            sets = [rt] if isinstance(rt, ast.Set) else (lc.values_of(rt.id) if isinstance(rt, ast.Name) else [])
+            elts = [e for s_ in sets if isinstance(s_, ast.Set) for e in s_.elts if not (isinstance(e, ast.Starred) and forwarded(e.value))]
+            tests = [_rejects_registered_name(f, cfg, e) for e in elts]
+            owned = bool(elts) and all(isinstance(s_, ast.Set) for s_ in sets) and all(t is not None for t in tests)
+            at = stmt_of(f.node, c)
+            if owned and at is not None and not all(cfg.is_dominated_by(at, lambda n, t=t: n is t) for t in tests):
+                rep.observe(f"{short(f)}: the class name is recorded for removal before the function has checked that the name is not "
+                            "already registered; when the check then fails, a later removal of the root pops the other class of that name")
+            rep.check(owned, "R08.6", key,
+                      "something is recorded for removal together with a schema although the recording function does not own it exclusively "
+                      "(no rejection of an already registered class of that name): the removal cascade pops a class that other schemas "
+                      "share, and what remains refers to a module that is not generated", where(f, c),
+                      lhs=norm(rt) if rt is not None else None, rhs="roots (forwarded) or {<name rejected when already in classes_by_name>}")
+    rep.floor("dependency_recording_sites", n_sites, 2)
+
+
+# ---- R08.7: validation of the document models -----------------------------------------------------------------------------------------
+
+VALIDATION_HOOKS = {"field_validator", "model_validator", "validator", "root_validator"}
+VALIDATION_METHODS = {"__init__", "model_post_init", "__post_init__"}
+
+
+def _piece_validators_do_not_raise(rep: Report, ix: Any) -> None:
+    fd = ix.func("GeneratorData.from_dict")
+    root_cls = None
+    all_or_nothing = False
+    for g in region(ix, fd):
+        for t in ast.walk(g.node):
+            if not isinstance(t, ast.Try):
+                continue
+            for c in [c for b in t.body for c in ast.walk(b)]:
+                if isinstance(c, ast.Call) and call_name(c).rsplit(".", 1)[-1] in ("model_validate", "parse_obj") and "." in call_name(c):
+                    root_cls = call_name(c).split(".")[-2]
+                    all_or_nothing = any(isinstance(r, ast.Return) and constructs_error(r.value) or
+                                         isinstance(r, ast.Raise) for h in t.handlers for r in ast.walk(h))
+    rep.require(root_cls, "the validation of the whole document (<Model>.model_validate inside try) in GeneratorData.from_dict")
+    if not all_or_nothing:
+        rep.ok("R08.7", "GeneratorData.from_dict::validation", "a validation error is not turned into a failure of the run", "n/a")
+        return
+    models = [k for k in ix.classes.values() if k.module.name.startswith("openapi_python_client.schema")]
+    repo_names = {k.name for k in models}
+    n_hooks = 0
+    for k in sorted(models, key=lambda k_: k_.qual):
+        for m in k.methods.values():
+            hooks = [d for d in m.node.decorator_list if (call_name(d) if isinstance(d, ast.Call) else norm(d)).rsplit(".", 1)[-1] in VALIDATION_HOOKS]
+            if not hooks and m.name not in VALIDATION_METHODS:
+                continue
+            n_hooks += 1
+            raising = [(g, n) for g in region(ix, m) for n in ast.walk(g.node) if isinstance(n, (ast.Raise, ast.Assert))]
+            # the root model may reject the document as a whole on account of fields that hold no pieces (plain values)
+            fields = [a.value for d in hooks if isinstance(d, ast.Call) for a in d.args if isinstance(a, ast.Constant) and isinstance(a.value, str)]
+            plain = k.name == root_cls and bool(fields) and all(
+                fld in k.fields and k.fields[fld] is not None and not (names_in(k.fields[fld]) & repo_names) for fld in fields)
+            rep.check(not raising or plain, "R08.7", f"{k.name}.{m.name}::validator-raises",
+                      "a validator of a piece-level document model raises: the document is validated in one step, so one such piece makes "
+                      "the whole generation fail instead of being omitted with a diagnostic", where(m, raising[0][1] if raising else m.node),
+                      lhs=[norm(n)[:60] for _, n in raising], rhs="no raise (the parser reports the piece and goes on)")
+    rep.floor("document_model_validation_hooks", n_hooks, 2)
+
+
+# ---- R08.8: built => handed on -----------------------------------------------------------------------------------------------------
+
+NON_RETAINING = set(dir(builtins)) | {"cast"}
+
+
+def _is_error_ctor(c: ast.Call) -> bool:
+    return call_name(c).rsplit(".", 1)[-1] in (ERROR_CLASSES | ERROR_ONLY_HELPERS)
+
+
+def _root_name(e: ast.AST) -> str | None:
+    while isinstance(e, (ast.Attribute, ast.Subscript, ast.Call)):
+        e = e.func if isinstance(e, ast.Call) else e.value
+    return e.id if isinstance(e, ast.Name) else None
+
+
+def _hands_on(st: object, al: set[str]) -> bool:
+    """the statement passes the product (one of the aliases `al`) to something that outlives the iteration: as (part of) an argument of a
+    call that is neither a builtin predicate/conversion, nor an error constructor, nor a method of the product itself; stored into a
+    container or attribute; yielded; or a nested loop that does so for each of a collection"""
+    if not isinstance(st, ast.stmt):
+        return False
+    if isinstance(st, (ast.For, ast.AsyncFor)) and any(_hands_on(x, al) for b in st.body for x in ast.walk(b) if isinstance(x, ast.stmt)):
+        return True
+    for n in walk_own(st):
+        if isinstance(n, ast.Call) and call_name(n).rsplit(".", 1)[-1] not in NON_RETAINING and not _is_error_ctor(n) and \
+                _root_name(n.func) not in al:
+            if any(names_in(a) & al for a in [*n.args, *[k.value for k in n.keywords]]):
+                return True
+        if isinstance(n, (ast.Yield, ast.YieldFrom)) and names_in(n.value) & al:
+            return True
+    if isinstance(st, (ast.Assign, ast.AugAssign, ast.AnnAssign)) and st.value is not None and names_in(st.value) & al:
+        tgts = st.targets if isinstance(st, ast.Assign) else [st.target]
+        if any(isinstance(t, (ast.Subscript, ast.Attribute)) and _root_name(t) not in al for t in tgts):
+            return True
+    return False
+
+
+def _is_error_test(e: ast.expr, al: set[str], assume: bool) -> bool | None:
+    """three-valued value of a test under the assumption `the product is (not) an error`"""
+    if isinstance(e, ast.BoolOp):
+        vals = [_is_error_test(v, al, assume) for v in e.values]
+        if isinstance(e.op, ast.And):
+            return False if any(v is False for v in vals) else (True if all(v is True for v in vals) else None)
+        return True if any(v is True for v in vals) else (False if all(v is False for v in vals) else None)
+    if isinstance(e, ast.UnaryOp) and isinstance(e.op, ast.Not):
+        v = _is_error_test(e.operand, al, assume)
+        return None if v is None else not v
+    if isinstance(e, ast.Call) and call_name(e) == "isinstance" and len(e.args) == 2 and isinstance(e.args[0], ast.Name) and e.args[0].id in al:
+        kinds = e.args[1].elts if isinstance(e.args[1], ast.Tuple) else [e.args[1]]
+        is_err = [norm(k_).rsplit(".", 1)[-1] in ERROR_CLASSES for k_ in kinds]
+        if all(is_err):
+            return assume
+        if assume and not any(is_err):
+            return False  # an error value is not an instance of a property / model class
+    return None
+
+
+def _products_not_dropped(rep: Report, ix: Any, cfgs: dict[str, CFG]) -> None:
+    n_p = 0
+    for f in ix.all_functions:
+        if not f.module.name.startswith("openapi_python_client.parser"):
+            continue
+        steps = [st for st in ast.walk(f.node) if isinstance(st, ast.Assign) and isinstance(st.value, ast.Call)
+                 and {k.arg for k in st.value.keywords} & set(THREADED) and len(st.targets) == 1 and isinstance(st.targets[0], ast.Tuple)
+                 and len(st.targets[0].elts) >= 2 and isinstance(st.targets[0].elts[0], ast.Name)]
+        if not steps:
+            continue
+        cfg = cfg_of(f, cfgs)
+        lc = Locals(f.node)
+        for st in steps:
+            lp = enclosing_loop_body(f.node, st)
+            if lp is None or st not in cfg.succ:
+                continue
+            n_p += 1
+            prod = st.targets[0].elts[0].id
+            al = {prod}
+            for _ in range(2):  # plain aliases: y = x, y = cast(T, x)
+                for name, ds in lc.defs.items():
+                    for kind, _, v in ds:
+                        if kind == "assign" and v is not None and names_in(v) & al and (
+                                isinstance(v, ast.Name) or (isinstance(v, ast.Call) and call_name(v).rsplit(".", 1)[-1] in NON_RETAINING)):
+                            al = al | {name}
+            dropped: list[str] = []
+            for assume in (True, False):
+                seen: set[int] = {id(st)}
+                stack: list[object] = [st]
+                while stack:
+                    n = stack.pop()
+                    nxt = set(cfg.succ.get(n, ()))
+                    if isinstance(n, ast.If) and n is not st:
+                        v = _is_error_test(n.test, al, assume)
+                        if v is True:
+                            nxt = {n.body[0]}
+                        elif v is False:
+                            nxt = _else_successors(cfg, n)
+                    for s_ in nxt:
+                        if s_ is lp or (isinstance(s_, ast.Break) and enclosing_loop_body(f.node, s_) is lp):
+                            dropped.append(f"{'error' if assume else 'value'} dropped after `{norm(n)[:50]}`" if isinstance(n, ast.AST) else "dropped")
+                            continue
+                        if id(s_) in seen or s_ is EXIT or _hands_on(s_, al):
+                            continue
+                        if isinstance(s_, ast.stmt) and any(isinstance(t, ast.Name) and isinstance(t.ctx, ast.Store) and t.id in al
+                                                            for t in walk_own(s_)):
+                            continue  # rebound without being handed on: a later step owns the name from here
+                        seen.add(id(s_))
+                        stack.append(s_)
+            rep.check(not dropped, "R08.8", f"{short(f)}::{call_name(st.value).rsplit('.', 1)[-1]}-product-handed-on[{role_anon(getattr(lp, 'iter', getattr(lp, 'test', None)), f.node)[:40]}]",
+                      "an item is built (a step that can fail its container and registers classes in the threaded state) and then dropped "
+                      "without its product or error being handed on: a piece that does not contribute can damage what does not depend on it",
+                      where(f, st), lhs=sorted(set(dropped))[:4], rhs="every end of the iteration after the build hands the product on")
+    rep.floor("build_steps_in_item_loops", n_p, 6)
